@@ -10,17 +10,20 @@
 #define cfpol ((mapping) REG->pol ("cf"))
 #define vspol ((mapping) REG->pol ("vs"))
 #define copol ((mapping) REG->pol ("co"))
+#define vbpol ((mapping) REG->pol ("vb"))
 
 void create () { oid = "m"; }
 
 private object connect (int port) { return new ("/vuser.c"); }
 // variants (`cfg noroot` / `cfg nobb`): /c20/master_noroot.c, /c20/master_nobb.c, /c20/master_nobb_noroot.c define these
 // macros and include this file: set_master then finds no get_root_uid() (master keeps "NONAME" / 0) / no get_bb_uid()
+// `pol root <name>` / `pol bb <name>` change the answers (kept in the registry object, which does not exist yet when the
+// first master is loaded): a master reloaded later (`dest,m`) announces another root / backbone uid
 #ifndef C20_NO_ROOT
-string get_root_uid () { return "Root"; }
+string get_root_uid () { object r; r = find_object (REG); if (r && stringp (r->uid_name ("root"))) return r->uid_name ("root"); return "Root"; }
 #endif
 #ifndef C20_NO_BB
-string get_bb_uid () { return "Backbone"; }
+string get_bb_uid () { object r; r = find_object (REG); if (r && stringp (r->uid_name ("bb"))) return r->uid_name ("bb"); return "Backbone"; }
 #endif
 int valid_read (string path, mixed who, string fn) { return 1; }
 int valid_write (string path, mixed who, string fn) { return 1; }
@@ -36,10 +39,12 @@ string error_handler (mapping m, int caught) {
 
 void set_pol (string kind, string a, string b, string c) {
   mapping m;
+  if (kind == "root" || kind == "bb") { REG->set_uid_name (kind, a); return; }
   m = REG->pol (kind);
   if (kind == "cf") m[a] = b;
   else if (kind == "co") { if (b == "-") map_delete (m, a); else m[a] = b; }
   else if (kind == "vs") m[a + ":" + (b == "-" ? "" : b)] = c;
+  else if (kind == "vb") m[a + ":" + b] = c;
 }
 
 mixed answer (string spec) {
@@ -90,5 +95,20 @@ mixed valid_seteuid (object ob, string uid) {
   if (!stringp (spec)) spec = vspol["*:*"];
   if (!stringp (spec)) spec = "i:1";
   VL ("vs " + o + " s:" + uid + " " + spec);
+  return answer (spec);
+}
+
+// valid_bind(doer, old owner, new owner) for bind(): answer chosen by (doer oid, new owner oid) with `*` wildcards
+// (`pol vb <doer> <new owner> <spec>`), logged as `VL vb <doer> <new owner> <spec>`
+mixed valid_bind (object doer, object owner, object victim) {
+  string d, n, spec;
+  d = REG->oid_of (doer);
+  n = REG->oid_of (victim);
+  spec = vbpol[d + ":" + n];
+  if (!stringp (spec)) spec = vbpol[d + ":*"];
+  if (!stringp (spec)) spec = vbpol["*:" + n];
+  if (!stringp (spec)) spec = vbpol["*:*"];
+  if (!stringp (spec)) spec = "i:1";
+  VL ("vb " + d + " " + n + " " + spec);
   return answer (spec);
 }
